@@ -700,6 +700,45 @@ def valid_definitions(src, regw):
     return "\n".join(out)
 
 
+def memory_definitions(repo, libsrc):
+    """minidump/src/minidump.rs MinidumpMemoryBase::memory_range (what walk_stack demands of a stack memory) and the two
+    statements of get_memory_at_address; lib.rs walk_stack's use of them"""
+    md = open(os.path.join(repo, "minidump", "src", "minidump.rs"), encoding="utf-8").read()
+    what = "minidump.rs MinidumpMemoryBase::memory_range"
+    m = one(md, r"\n    pub fn memory_range\(&self\) -> Option<Range<u64>> \{\n(        if self\.size.*?)\n    \}\n", what, re.S)
+    n = norm(m.group(1), what)
+    lit = r"(0x[0-9a-fA-F_]+|\d[\d_]*)"
+    mm = re.fullmatch(r"if self \. size (?P<cmp>==|<=|<) " + lit + r" \{ return None ; \} "
+                      r"Some \( Range :: new \( self \. base_address , self \. base_address \. (?P<add>checked_add|wrapping_add|saturating_add) \( self \. size \) (?P<q>\? )?"
+                      r"(?P<op>[-+]) " + lit + r" , \) \)", n)
+    if not mm:
+        die(what + ": the body no longer has the shape the model was written for: `%s`" % n)
+    if (mm.group("add") == "checked_add") != bool(mm.group("q")):
+        die(what + ": `?` and checked_add do not go together")
+    cmpc, endc = intlit(mm.group(2)), intlit(mm.group(6))
+    add = {"checked_add": "checked_add 64 base_address size", "wrapping_add": "Some (wrap64 (base_address + size))",
+           "saturating_add": "Some (sat_add 64 base_address size)"}[mm.group("add")]
+    out = ("(* minidump/src/minidump.rs MinidumpMemoryBase::memory_range: Ret None = None, Ret (Some (first, last)) = Some(Range::new(first, last)) *)\n"
+           "Definition minidump_memory_range (p : profile) (base_address size : Z) : outcome (option (Z * Z)) :=\n"
+           "  if (size %s %d) then Ret None else\n"
+           "  match %s with\n"
+           "  | None => Ret None\n"
+           "  | Some e => do t620 <- %s p 64 620 e %d; Ret (Some (base_address, t620))\n"
+           "  end.\n" % (CMP[mm.group("cmp")], cmpc, add, "chk_add" if mm.group("op") == "+" else "chk_sub", endc))
+    # get_memory_at_address: offset by checked_sub, bounds by scroll's pread_with
+    one(md, r"\n        let start = addr\.checked_sub\(self\.base_address\)\? as usize;\n\n        self\.bytes\.pread_with::<T>\(start, self\.endian\)\.ok\(\)\n    \}\n",
+        "minidump.rs MinidumpMemoryBase::get_memory_at_address")
+    # lib.rs walk_stack: a stack memory without a memory_range is no stack memory; without one the loop ends after the context frame
+    one(libsrc, r"\n    let stack_memory =\n        stack_memory\.and_then\(\|stack_memory\| stack_memory\.memory_range\(\)\.map\(\|_\| stack_memory\)\);\n",
+        "lib.rs walk_stack: memory_range precondition")
+    one(libsrc, r"\n        let Some\(stack_memory\) = stack_memory else \{\n            break;\n        \};\n", "lib.rs walk_stack: no stack memory, no caller")
+    one(libsrc, r"\n        let grand_callee_frame = stack\n            \.frames\n            \.len\(\)\n            \.checked_sub\(2\)\n            \.and_then\(\|idx\| stack\.frames\.get\(idx\)\);\n",
+        "lib.rs walk_stack: grand callee = the frame before the callee")
+    one(libsrc, r"\n        if let Some\(new_frame\) = new_frame \{\n            stack\.frames\.push\(new_frame\);\n        \} else \{\n            has_new_frame = false;\n        \}\n",
+        "lib.rs walk_stack: push or stop")
+    return out
+
+
 def main():
     repo, outdir = sys.argv[1], sys.argv[2]
     ud = os.path.join(repo, "minidump-unwind", "src")
@@ -903,7 +942,7 @@ def main():
     text = ("(* GENERATED by translate/unwind_consts.py from /repo/minidump-unwind/src/*.rs -- do not edit.\n"
             "   Register names are the big-endian base-256 value of their ASCII spelling. *)\n"
             "From Coq Require Import ZArith List.\nImport ListNotations.\nOpen Scope Z_scope.\n\n" + "\n".join(out) + "\n")
-    tail = tail_definitions(src, fmt, regw) + "\n" + valid_definitions(src, regw)
+    tail = tail_definitions(src, fmt, regw) + "\n" + valid_definitions(src, regw) + "\n" + memory_definitions(repo, src["lib"])
     os.makedirs(outdir, exist_ok=True)
     for fname, body in (("UnwindConsts.v", text), ("UnwindTail.v", tail)):
         path = os.path.join(outdir, fname)
